@@ -160,6 +160,9 @@ func (x *Exec) step(s *State, in ssa.Instruction) (cont bool) {
 		s.env[t] = p
 		s.setName(t.Comment, p, true)
 	case *ssa.FieldAddr:
+		if !x.atSite(s, in) {
+			return false
+		}
 		p := x.val(s, t.X)
 		st := p.T.Underlying().(*types.Pointer).Elem().Underlying().(*types.Struct)
 		f := st.Field(t.Field)
